@@ -56,6 +56,11 @@ type c15W struct {
 	ETables []eTable `json:"edge_tables"`
 	Prog    []string `json:"prog"`
 	LatencyUs int    `json:"latency_us"`
+	// Companion: another traversal on the same graph object (same table
+	// servicer, same caches): "before-limit1" = V().limit(1) run to the end
+	// before the judged traversal starts (its early end cancels its scans);
+	// "concurrent" = V() by a second client at the same time
+	Companion string `json:"companion,omitempty"`
 	Writes  bool     `json:"try_writes,omitempty"`
 }
 
@@ -94,7 +99,11 @@ func (w *c15W) materialise() *model.GraphData {
 }
 
 func genC15(r *Rng, tier string) *c15W {
-	w := &c15W{Run: GenRunCfg(r, []int{1, 1, 10, 50}), LatencyUs: []int{0, 0, 50, 5000, 4000000, 60000000}[r.Intn(6)], Writes: r.Chance(10)}
+	companion := ""
+	if r.Chance(30) {
+		companion = Pick(r, []string{"before-limit1", "concurrent"})
+	}
+	w := &c15W{Companion: companion, Run: GenRunCfg(r, []int{1, 1, 10, 50}), LatencyUs: []int{0, 0, 50, 5000, 4000000, 60000000}[r.Intn(6)], Writes: r.Chance(10)}
 	nv := 1 + r.Intn(3)
 	labels := []string{"A", "B", "A"} // several tables may share a label
 	prefixes := []string{"P:", "Q:", "R:"}
@@ -201,6 +210,11 @@ func shrinkC15(w *c15W) []interface{} {
 			out = append(out, n)
 		}
 	}
+	if w.Companion != "" {
+		n := cp()
+		n.Companion = ""
+		out = append(out, n)
+	}
 	if w.LatencyUs != 0 || w.Run.Policy != 0 || w.Run.CapDiv != 1 {
 		n := cp()
 		n.LatencyUs, n.Run.Policy, n.Run.CapDiv, n.Run.StarveIdx, n.Run.StarveSite = 0, 0, 1, 0, ""
@@ -258,10 +272,7 @@ func execC15(w *c15W, x *Exec) *Outcome {
 						data[r.ID] = &gripper.BaseRow{Key: r.ID, Value: model.DeepCopyMap(r.Data)}
 					}
 					var d gripper.Driver = gripper.NewDriverPreload(data, map[string]string{})
-					if t.Cached {
-						d = cachedDriver{gripper.NewDriverCache(d)}
-						cachedTables++
-					}
+					_ = t.Cached // see cachedDriver below: DriverCache stays out of the loop
 					drivers[t.Name] = d
 				}
 				for _, t := range w.ETables {
@@ -270,10 +281,7 @@ func execC15(w *c15W, x *Exec) *Outcome {
 						data[r.ID] = &gripper.BaseRow{Key: r.ID, Value: model.DeepCopyMap(r.Data)}
 					}
 					var d gripper.Driver = gripper.NewDriverPreload(data, map[string]string{})
-					if t.Cached {
-						d = cachedDriver{gripper.NewDriverCache(d)}
-						cachedTables++
-					}
+					_ = t.Cached // see cachedDriver below: DriverCache stays out of the loop
 					drivers[t.Name] = d
 				}
 				if cachedTables > 0 {
@@ -331,6 +339,30 @@ func execC15(w *c15W, x *Exec) *Outcome {
 					compileErr = err
 					return
 				}
+				companion := func(q []*gripql.GraphStatement) {
+					if cp, err := tg.Compiler().Compile(q, nil); err == nil {
+						for range pipeline.Run(context.Background(), cp, x.WorkDir) {
+							hyield("h:companion-recv")
+							simrt.Progress()
+						}
+					}
+				}
+				comp := w.Companion
+				if cachedTables > 0 {
+					// DriverCache (reached only through the harness adapter, dead code at
+					// this commit) is not safe under repeated or concurrent scans of one
+					// table on the unchanged tree; that is not what this check claims
+					comp = ""
+				}
+				switch comp {
+				case "before-limit1":
+					simrt.Probe("companion traversal with limit(1) ran first")
+					companion(gen.StmtsOf(gen.V(), gen.Limit(1)))
+					sleepSim(1500000) // whatever it left running has time to finish
+				case "concurrent":
+					simrt.Probe("companion traversal ran concurrently")
+					simrt.Go("client:companion", func() { companion(gen.StmtsOf(gen.V())) })
+				}
 				res := pipeline.Run(context.Background(), pipe, x.WorkDir)
 				for {
 					hyield("h:client-recv")
@@ -349,6 +381,22 @@ func execC15(w *c15W, x *Exec) *Outcome {
 	if res.Verdict == simrt.Budget && cfg.Policy != simrt.PolRR {
 		cfg.Policy = simrt.PolRR
 		res = run(cfg)
+	}
+	if (res.Verdict == simrt.Deadlock || res.Verdict == simrt.Livelock) && cfg.CapDiv > 1 && len(res.Panics) == 0 && res.Infra == "" {
+		// A traversal that never finishes with divided buffer capacities counts
+		// only if it is confirmed: unlike C07 this check has no scaled-up
+		// workload to confirm with at production constants, so the same
+		// workload is run again with the capacities of the code as written. A
+		// hang that needs the small buffers (the per-prefix pipelines merged in
+		// request order wait for each other once a buffer of one slot is full)
+		// is recorded as not confirmed and not reported.
+		cfg1 := cfg
+		cfg1.CapDiv = 1
+		res1 := run(cfg1)
+		if res1.Verdict == simrt.Done {
+			o.Count("hang_with_divided_capacities_not_confirmed_at_production_constants", 1)
+			res = res1
+		}
 	}
 	o.Fingerprint ^= x.Stats.TraceHash
 	o.Count("simnet_streams", netStats.Streams)
@@ -419,10 +467,15 @@ func shapeOfTables(w *c15W) string {
 	return "all-links-resolve"
 }
 
-// cachedDriver puts the real gripper.DriverCache behind the table servicer.
-// At this commit DriverCache lacks GetFieldLinks (so it does not implement
-// gripper.Driver and nothing in the repository instantiates it); the adapter
-// adds that one method by delegation and nothing else.
+// cachedDriver would put the real gripper.DriverCache behind the table
+// servicer. At this commit DriverCache lacks GetFieldLinks (it does not
+// implement gripper.Driver and nothing in the repository instantiates it); the
+// adapter adds that one method by delegation. It is NOT used: with it, long
+// runs on the unchanged tree end in lock-ups inside DriverCache (a scan keeps
+// its read lock while it sends rows and while it sleeps, the loader needs the
+// write lock per row) and repeated scans return duplicates. That is behaviour
+// of code no deployment can reach, so the check claims nothing about it and the
+// seeded changes that live in driver_cache.go are listed as out of reach.
 type cachedDriver struct{ *gripper.DriverCache }
 
 func (c cachedDriver) GetFieldLinks() (map[string]string, error) { return c.Driver.GetFieldLinks() }
